@@ -37,15 +37,17 @@ func (c14dualValidator) Validate(string, []byte) error        { return nil }
 func (c14dualValidator) Select(string, [][]byte) (int, error) { return 0, nil }
 
 type c14dualCase struct {
-	ctor    string
-	mode    dht.ModeOpt
-	autoRef bool
-	nseeds  int
-	ops     []string
-	closeAt int
-	conc2   bool
-	strat   int
-	failPct int
+	ctor       string
+	mode       dht.ModeOpt
+	autoRef    bool
+	nseeds     int
+	ops        []string
+	closeAt    int
+	closeOp1   int // >0: Close follows the start of operation closeOp1-1 by closeDelay steps
+	closeDelay int
+	conc2      bool
+	strat      int
+	failPct    int
 }
 
 var c14dualCid = func() cid.Cid {
@@ -86,7 +88,7 @@ func c14dualRun(r *vfRand, c *c14dualCase, tr *zzc14.Trace) (*zzc14.Plan, string
 		}()
 		d, err = New(h, opts...)
 	}()
-	plan := &zzc14.Plan{Gate: gate, UseWait: true, CloseAt: c.closeAt, Concurrent2: c.conc2, MaxSteps: 2000, Idle: 10 * time.Second, MaxIdle: 20,
+	plan := &zzc14.Plan{Gate: gate, UseWait: true, CloseAt: c.closeAt, CloseOp1: c.closeOp1, CloseDelay: c.closeDelay, Concurrent2: c.conc2, MaxSteps: 2000, Idle: 10 * time.Second, MaxIdle: 20,
 		Final: func() { _ = h.Close() }}
 	if tr.Has("TCtorPanic") {
 		_ = h.Close()
@@ -195,6 +197,9 @@ func c14dualGen(r *vfRand, i int) *c14dualCase {
 		c.closeAt = r.Intn(4 + 6*len(c.ops))
 	}
 	c.conc2 = r.Chance(30)
+	if len(c.ops) > 0 && r.Chance(55) {
+		c.closeOp1, c.closeDelay = 1+r.Intn(len(c.ops)), 1+r.Intn(4)
+	}
 	return c
 }
 
@@ -204,7 +209,7 @@ func TestVerifC14Dual(t *testing.T) {
 	zzc14.StartClock()
 	seed := vfSeed()
 	n := vfEnvInt("VERIF_N", 60)
-	only := vfOnly()
+	only := zzc14.Only(5, vfOnly())
 	cs := vfNewCases("Run_C14", 50)
 	curDesc := map[string]any{}
 	zzc14.OnHang(func(label, stacks string) {
@@ -215,12 +220,12 @@ func TestVerifC14Dual(t *testing.T) {
 	root := vfNewRand(seed)
 	for i := 0; i < n; i++ {
 		r := root.Fork()
-		if only >= 0 && i != only {
+		if only != -1 && i != only {
 			continue
 		}
 		c := c14dualGen(r, i)
-		desc := map[string]any{"case": i, "seed": seed, "pkg": "dual", "comp": "dual", "ctor": c.ctor, "mode": int(c.mode), "autoRefresh": c.autoRef, "seeds": c.nseeds,
-			"ops": c.ops, "closeAt": c.closeAt, "concurrent2": c.conc2, "strategy": c.strat, "failPct": c.failPct}
+		desc := map[string]any{"case": zzc14.CaseID(5, i), "seed": seed, "pkg": "dual", "comp": "dual", "ctor": c.ctor, "mode": int(c.mode), "autoRefresh": c.autoRef, "seeds": c.nseeds,
+			"ops": c.ops, "closeAt": c.closeAt, "closeOp1": c.closeOp1, "closeDelay": c.closeDelay, "concurrent2": c.conc2, "strategy": c.strat, "failPct": c.failPct}
 		curDesc = desc
 		tr := &zzc14.Trace{}
 		var plan *zzc14.Plan
